@@ -334,4 +334,418 @@ theorem overall_no_singles_lemma (mem1 mem2 : MemTest) (cat : Cat) (h : NoSingle
     · rw [foldl_mergeStep_arrays mem1 mem2 _ [] (levelSegs_arrays cat h _) (by simp)]
     · rfl
 
+/-! ## T6 at full strength: the merged segments describe exactly the union -/
+
+/-- `x` is an iteration described by a segment: `[a]`, or `[a, b, d]` = `a, a+d, …, b` -/
+def inSegP (x : Int) (s : List Int) : Prop :=
+  match s with
+  | [a] => x = a
+  | [a, b, d] => a ≤ x ∧ x ≤ b ∧ d ∣ (x - a)
+  | _ => False
+
+/-- a segment as `iterations()` produces it from an arithmetic progression -/
+def WFseg (s : List Int) : Prop :=
+  (∃ a, s = [a]) ∨ ∃ a b d, s = [a, b, d] ∧ a < b ∧ 0 < d ∧ d ∣ (b - a)
+
+def inSit (x : Int) (sit : List (List Int)) : Prop := ∃ s ∈ sit, inSegP x s
+
+/-- The one merge the code performs without looking: two ranges of equal
+stride become `[min₁, max₂, d]`.  This is faithful exactly when the second
+range continues or overlaps the first on the same grid and reaches at least
+as far. -/
+def stepOK (sit : List (List Int)) (cur : List Int) : Prop :=
+  ∀ p0 p1 d c0 c1, sit.getLast? = some [p0, p1, d] → cur = [c0, c1, d] →
+    d ∣ (c0 - p0) ∧ p0 ≤ c0 ∧ c0 ≤ p1 + d ∧ p1 ≤ c1
+
+theorem rangeMem_spec (x a b d : Int) (hd : 0 < d) :
+    ∃ m, rangeMem x a b d = .ok m ∧ (m = true ↔ (a ≤ x ∧ x ≤ b ∧ d ∣ (x - a))) := by
+  have h0 : (d == 0) = false := by simp; omega
+  refine ⟨(decide (a ≤ x) && decide (x < b + 1) && (x - a) % d == 0), by simp [rangeMem, h0, hd], ?_⟩
+  simp only [Bool.and_eq_true, decide_eq_true_eq, beq_iff_eq]
+  constructor
+  · rintro ⟨⟨h1, h2⟩, h3⟩; exact ⟨h1, by omega, Int.dvd_of_emod_eq_zero h3⟩
+  · rintro ⟨h1, h2, h3⟩; exact ⟨⟨h1, by omega⟩, Int.emod_eq_zero_of_dvd h3⟩
+
+theorem inSit_append (x : Int) (a b : List (List Int)) : inSit x (a ++ b) ↔ inSit x a ∨ inSit x b := by
+  simp only [inSit, List.mem_append]
+  constructor
+  · rintro ⟨s, hs | hs, h⟩
+    · exact Or.inl ⟨s, hs, h⟩
+    · exact Or.inr ⟨s, hs, h⟩
+  · rintro (⟨s, hs, h⟩ | ⟨s, hs, h⟩)
+    · exact ⟨s, Or.inl hs, h⟩
+    · exact ⟨s, Or.inr hs, h⟩
+
+theorem inSit_single (x : Int) (s : List Int) : inSit x [s] ↔ inSegP x s := by
+  simp [inSit]
+
+/-- what one merge step has to deliver -/
+def StepGoal (sit : List (List Int)) (cur : List Int) : Prop :=
+  ∃ r, mergeStep rangeMem sit cur = .ok r ∧ (∀ s ∈ r, WFseg s) ∧
+    ∀ x, inSit x r ↔ inSit x sit ∨ inSegP x cur
+
+theorem goal_append (front : List (List Int)) (prev cur : List Int)
+    (hw : ∀ s ∈ front ++ [prev], WFseg s) (hc : WFseg cur)
+    (h : mergeStep rangeMem (front ++ [prev]) cur = .ok (front ++ [prev] ++ [cur])) :
+    StepGoal (front ++ [prev]) cur := by
+  refine ⟨_, h, ?_, ?_⟩
+  · intro s hs
+    rcases List.mem_append.mp hs with hs | hs
+    · exact hw s hs
+    · simp at hs; subst hs; exact hc
+  · intro x; rw [inSit_append, inSit_single]
+
+/-- replacing the last segment by one that describes `prev ∪ cur` -/
+theorem goal_replace (front : List (List Int)) (prev cur new : List Int)
+    (hw : ∀ s ∈ front ++ [prev], WFseg s) (hn : WFseg new)
+    (hset : ∀ x, inSegP x new ↔ inSegP x prev ∨ inSegP x cur)
+    (h : mergeStep rangeMem (front ++ [prev]) cur = .ok (front ++ [new])) :
+    StepGoal (front ++ [prev]) cur := by
+  refine ⟨_, h, ?_, ?_⟩
+  · intro s hs
+    rcases List.mem_append.mp hs with hs | hs
+    · exact hw s (List.mem_append.mpr (Or.inl hs))
+    · simp at hs; subst hs; exact hn
+  · intro x
+    rw [inSit_append, inSit_append, inSit_single, inSit_single, hset]
+    constructor
+    · rintro (h | h | h)
+      · exact Or.inl (Or.inl h)
+      · exact Or.inl (Or.inr h)
+      · exact Or.inr h
+    · rintro ((h | h) | h)
+      · exact Or.inl h
+      · exact Or.inr (Or.inl h)
+      · exact Or.inr (Or.inr h)
+
+theorem step_arr_arr (front : List (List Int)) (p0 p1 p2 c0 c1 c2 : Int)
+    (hw : ∀ s ∈ front ++ [[p0, p1, p2]], WFseg s)
+    (hp : p0 < p1 ∧ 0 < p2 ∧ p2 ∣ (p1 - p0)) (hc : c0 < c1 ∧ 0 < c2 ∧ c2 ∣ (c1 - c0))
+    (hok : stepOK (front ++ [[p0, p1, p2]]) [c0, c1, c2]) :
+    StepGoal (front ++ [[p0, p1, p2]]) [c0, c1, c2] := by
+  have hcw : WFseg [c0, c1, c2] := Or.inr ⟨c0, c1, c2, rfl, hc⟩
+  by_cases he : p2 = c2
+  · subst he
+    obtain ⟨k1, k2, k3, k4⟩ := hok p0 p1 p2 c0 c1 (by simp) rfl
+    have hm : mergeStep rangeMem (front ++ [[p0, p1, p2]]) [c0, c1, p2] = .ok (front ++ [[p0, c1, p2]]) := by
+      simp [mergeStep, idxI, idx]
+    refine goal_replace front _ _ [p0, c1, p2] hw (Or.inr ⟨p0, c1, p2, rfl, by omega, hp.2.1, ?_⟩) ?_ hm
+    · have : c1 - p0 = (c1 - c0) + (c0 - p0) := by omega
+      rw [this]; exact Int.dvd_add hc.2.2 k1
+    · intro x
+      simp only [inSegP]
+      constructor
+      · rintro ⟨h1, h2, h3⟩
+        by_cases hx : x ≤ p1
+        · exact Or.inl ⟨h1, hx, h3⟩
+        · right
+          have hd1 : p2 ∣ (x - p1) := by
+            have : x - p1 = (x - p0) - (p1 - p0) := by omega
+            rw [this]; exact Int.dvd_sub h3 hp.2.2
+          have := Int.le_of_dvd (by omega) hd1
+          refine ⟨by omega, h2, ?_⟩
+          have : x - c0 = (x - p0) - (c0 - p0) := by omega
+          rw [this]; exact Int.dvd_sub h3 k1
+      · rintro (⟨h1, h2, h3⟩ | ⟨h1, h2, h3⟩)
+        · exact ⟨h1, by omega, h3⟩
+        · refine ⟨by omega, h2, ?_⟩
+          have : x - p0 = (x - c0) + (c0 - p0) := by omega
+          rw [this]; exact Int.dvd_add h3 k1
+  · have hne : (p2 == c2) = false := by simpa using he
+    have hm : mergeStep rangeMem (front ++ [[p0, p1, p2]]) [c0, c1, c2] =
+        .ok (front ++ [[p0, p1, p2]] ++ [[c0, c1, c2]]) := by
+      simp [mergeStep, idxI, idx, hne, he]
+    exact goal_append front _ _ hw hcw hm
+
+theorem step_arr_single (front : List (List Int)) (p0 p1 p2 x0 : Int)
+    (hw : ∀ s ∈ front ++ [[p0, p1, p2]], WFseg s)
+    (hp : p0 < p1 ∧ 0 < p2 ∧ p2 ∣ (p1 - p0)) :
+    StepGoal (front ++ [[p0, p1, p2]]) [x0] := by
+  obtain ⟨m, hm, hmi⟩ := rangeMem_spec x0 p0 p1 p2 hp.2.1
+  have hcw : WFseg [x0] := Or.inl ⟨x0, rfl⟩
+  cases m with
+  | true =>
+    have hin := hmi.mp rfl
+    have hstep : mergeStep rangeMem (front ++ [[p0, p1, p2]]) [x0] = .ok (front ++ [[p0, p1, p2]]) := by
+      simp [mergeStep, idxI, idx, hm]
+    refine ⟨_, hstep, hw, ?_⟩
+    intro x
+    constructor
+    · exact Or.inl
+    · rintro (h | h)
+      · exact h
+      · simp only [inSegP] at h; subst h
+        exact ⟨[p0, p1, p2], by simp, hin⟩
+  | false =>
+    have hnot : ¬ (p0 ≤ x0 ∧ x0 ≤ p1 ∧ p2 ∣ (x0 - p0)) := fun h => by simpa using hmi.mpr h
+    by_cases hab : ((x0 - p1).natAbs : Int) = p2
+    · -- the only possibility is the next point of the progression
+      have hnext : x0 = p1 + p2 := by
+        rcases (show x0 = p1 + p2 ∨ x0 = p1 - p2 by omega) with h | h
+        · exact h
+        · exfalso
+          apply hnot
+          have hle := Int.le_of_dvd (by omega) hp.2.2
+          refine ⟨by omega, by omega, ?_⟩
+          have : x0 - p0 = (p1 - p0) - p2 := by omega
+          rw [this]; exact Int.dvd_sub hp.2.2 (Int.dvd_refl _)
+      have hb : ((x0 - p1).natAbs == p2) = true := by simpa using hab
+      have hstep : mergeStep rangeMem (front ++ [[p0, p1, p2]]) [x0] = .ok (front ++ [[p0, x0, p2]]) := by
+        simp [mergeStep, idxI, idx, hm, hab]
+      refine goal_replace front _ _ [p0, x0, p2] hw (Or.inr ⟨p0, x0, p2, rfl, by omega, hp.2.1, ?_⟩) ?_ hstep
+      · have : x0 - p0 = (p1 - p0) + p2 := by omega
+        rw [this]; exact Int.dvd_add hp.2.2 (Int.dvd_refl _)
+      · intro x
+        simp only [inSegP]
+        constructor
+        · rintro ⟨h1, h2, h3⟩
+          by_cases hx : x ≤ p1
+          · exact Or.inl ⟨h1, hx, h3⟩
+          · right
+            have hd1 : p2 ∣ (x - p1) := by
+              have : x - p1 = (x - p0) - (p1 - p0) := by omega
+              rw [this]; exact Int.dvd_sub h3 hp.2.2
+            have := Int.le_of_dvd (by omega) hd1
+            omega
+        · rintro (⟨h1, h2, h3⟩ | h)
+          · exact ⟨h1, by omega, h3⟩
+          · subst h
+            refine ⟨by omega, by omega, ?_⟩
+            have : x - p0 = (p1 - p0) + p2 := by omega
+            rw [this]; exact Int.dvd_add hp.2.2 (Int.dvd_refl _)
+    · have hstep : mergeStep rangeMem (front ++ [[p0, p1, p2]]) [x0] =
+          .ok (front ++ [[p0, p1, p2]] ++ [[x0]]) := by
+        simp [mergeStep, idxI, idx, hm, hab]
+      exact goal_append front _ _ hw hcw hstep
+
+theorem step_single_arr (front : List (List Int)) (p c0 c1 c2 : Int)
+    (hw : ∀ s ∈ front ++ [[p]], WFseg s) (hc : c0 < c1 ∧ 0 < c2 ∧ c2 ∣ (c1 - c0)) :
+    StepGoal (front ++ [[p]]) [c0, c1, c2] := by
+  obtain ⟨m, hm, hmi⟩ := rangeMem_spec p c0 c1 c2 hc.2.1
+  have hcw : WFseg [c0, c1, c2] := Or.inr ⟨c0, c1, c2, rfl, hc⟩
+  cases m with
+  | true =>
+    have hin := hmi.mp rfl
+    have hstep : mergeStep rangeMem (front ++ [[p]]) [c0, c1, c2] = .ok (front ++ [[c0, c1, c2]]) := by
+      simp [mergeStep, idxI, idx, hm]
+    refine goal_replace front _ _ [c0, c1, c2] hw hcw ?_ hstep
+    intro x
+    constructor
+    · exact Or.inr
+    · rintro (h | h)
+      · simp only [inSegP] at h; subst h; exact hin
+      · exact h
+  | false =>
+    have hnot : ¬ (c0 ≤ p ∧ p ≤ c1 ∧ c2 ∣ (p - c0)) := fun h => by simpa using hmi.mpr h
+    by_cases hab : ((c0 - p).natAbs : Int) = c2
+    · have hprev : p = c0 - c2 := by
+        rcases (show p = c0 - c2 ∨ p = c0 + c2 by omega) with h | h
+        · exact h
+        · exfalso
+          apply hnot
+          have hle := Int.le_of_dvd (by omega) hc.2.2
+          refine ⟨by omega, by omega, ?_⟩
+          have : p - c0 = c2 := by omega
+          rw [this]; exact Int.dvd_refl _
+      have hstep : mergeStep rangeMem (front ++ [[p]]) [c0, c1, c2] = .ok (front ++ [[p, c1, c2]]) := by
+        simp [mergeStep, idxI, idx, hm, hab]
+      refine goal_replace front _ _ [p, c1, c2] hw (Or.inr ⟨p, c1, c2, rfl, by omega, hc.2.1, ?_⟩) ?_ hstep
+      · have : c1 - p = (c1 - c0) + c2 := by omega
+        rw [this]; exact Int.dvd_add hc.2.2 (Int.dvd_refl _)
+      · intro x
+        simp only [inSegP]
+        constructor
+        · rintro ⟨h1, h2, h3⟩
+          by_cases hx : x = p
+          · exact Or.inl hx
+          · right
+            have := Int.le_of_dvd (by omega) h3
+            refine ⟨by omega, h2, ?_⟩
+            have : x - c0 = (x - p) - c2 := by omega
+            rw [this]; exact Int.dvd_sub h3 (Int.dvd_refl _)
+        · rintro (h | ⟨h1, h2, h3⟩)
+          · subst h; exact ⟨by omega, by omega, by simp⟩
+          · refine ⟨by omega, h2, ?_⟩
+            have : x - p = (x - c0) + c2 := by omega
+            rw [this]; exact Int.dvd_add h3 (Int.dvd_refl _)
+    · have hstep : mergeStep rangeMem (front ++ [[p]]) [c0, c1, c2] =
+          .ok (front ++ [[p]] ++ [[c0, c1, c2]]) := by
+        simp [mergeStep, idxI, idx, hm, hab]
+      exact goal_append front _ _ hw hcw hstep
+
+theorem step_single_single (front : List (List Int)) (p c : Int)
+    (hw : ∀ s ∈ front ++ [[p]], WFseg s) : StepGoal (front ++ [[p]]) [c] := by
+  by_cases h : p = c
+  · subst h
+    have hstep : mergeStep rangeMem (front ++ [[p]]) [p] = .ok (front ++ [[p]]) := by
+      simp [mergeStep, idxI, idx]
+    refine ⟨_, hstep, hw, ?_⟩
+    intro x
+    constructor
+    · exact Or.inl
+    · rintro (h | h)
+      · exact h
+      · exact ⟨[p], by simp, h⟩
+  · have hne : (p == c) = false := by simpa using h
+    have hstep : mergeStep rangeMem (front ++ [[p]]) [c] = .ok (front ++ [[p]] ++ [[c]]) := by
+      simp [mergeStep, idxI, idx, hne, h]
+    exact goal_append front _ _ hw (Or.inl ⟨c, rfl⟩) hstep
+
+/-- one merge step is faithful -/
+theorem mergeStep_faithful (sit : List (List Int)) (cur : List Int)
+    (hw : ∀ s ∈ sit, WFseg s) (hc : WFseg cur) (hok : stepOK sit cur) : StepGoal sit cur := by
+  rcases List.eq_nil_or_concat sit with h | ⟨front, prev, h⟩
+  · subst h
+    refine ⟨[cur], by simp [mergeStep], ?_, ?_⟩
+    · intro s hs; simp at hs; subst hs; exact hc
+    · intro x; simp [inSit]
+  · rw [List.concat_eq_append] at h
+    subst h
+    have hpw := hw prev (by simp)
+    rcases hpw with ⟨p, rfl⟩ | ⟨p0, p1, p2, rfl, hp⟩
+    · rcases hc with ⟨c, rfl⟩ | ⟨c0, c1, c2, rfl, hc⟩
+      · exact step_single_single front p c hw
+      · exact step_single_arr front p c0 c1 c2 hw hc
+    · rcases hc with ⟨c, rfl⟩ | ⟨c0, c1, c2, rfl, hc⟩
+      · exact step_arr_single front p0 p1 p2 c hw hp
+      · exact step_arr_arr front p0 p1 p2 c0 c1 c2 hw hp hc hok
+
+/-- the equal-stride merges along the whole fold are of the faithful kind -/
+def Chain : List (List Int) → List (List Int) → Prop
+  | _, [] => True
+  | sit, cur :: rest => stepOK sit cur ∧ ∀ r, mergeStep rangeMem sit cur = .ok r → Chain r rest
+
+/-- **T6 (full strength)**: merging the per-restart segments of one level never
+raises and the result describes exactly the union of the segments -/
+theorem merge_faithful : ∀ (segs sit : List (List Int)), (∀ s ∈ sit, WFseg s) → (∀ s ∈ segs, WFseg s) →
+    Chain sit segs →
+    ∃ r, foldlE (mergeStep rangeMem) sit segs = .ok r ∧ (∀ s ∈ r, WFseg s) ∧
+      ∀ x, inSit x r ↔ inSit x sit ∨ ∃ s ∈ segs, inSegP x s := by
+  intro segs
+  induction segs with
+  | nil => intro sit hw _ _; exact ⟨sit, rfl, hw, fun x => by simp⟩
+  | cons c segs ih =>
+    intro sit hw hs hch
+    obtain ⟨hok, hrest⟩ := hch
+    obtain ⟨r1, h1, w1, e1⟩ := mergeStep_faithful sit c hw (hs c (List.mem_cons_self ..)) hok
+    obtain ⟨r, h2, w2, e2⟩ := ih r1 w1 (fun s h => hs s (List.mem_cons_of_mem _ h)) (hrest r1 h1)
+    refine ⟨r, by simp only [foldlE, h1]; exact h2, w2, ?_⟩
+    intro x
+    rw [e2, e1]
+    constructor
+    · rintro ((h | h) | ⟨s, hs', h⟩)
+      · exact Or.inl h
+      · exact Or.inr ⟨c, List.mem_cons_self .., h⟩
+      · exact Or.inr ⟨s, List.mem_cons_of_mem _ hs', h⟩
+    · rintro (h | ⟨s, hs', h⟩)
+      · exact Or.inl (Or.inl h)
+      · rcases List.mem_cons.mp hs' with rfl | hs'
+        · exact Or.inl (Or.inr h)
+        · exact Or.inr ⟨s, hs', h⟩
+
+/-! ### from the per-level fold to the dictionary `overall` -/
+
+theorem toDec_inj {a b : Nat} (h : toDec a = toDec b) : a = b := by
+  have := digitsVal_toDec a
+  rw [h, digitsVal_toDec] at this
+  injection this with this; exact this.symm
+
+theorem rlkey_inj {a b : Nat} (h : mRl ++ toDec a = mRl ++ toDec b) : a = b :=
+  toDec_inj (List.append_cancel_left h)
+
+/-- one pass of the `while rl_to_do` loop -/
+def ovStep (cat : Cat) (ov : List (Str × List (List Int))) (rl : Nat) :
+    Except Err (List (Str × List (List Int))) := do
+  let rlkey := mRl ++ toDec rl
+  if cat.any (fun re => dhas re.2 rlkey) then do
+    let sit ← foldlE (mergeStep rangeMem) [] (levelSegs cat rlkey)
+    pure (dset ov rlkey sit)
+  else pure ov
+
+theorem ovStep_cases (cat : Cat) (ov ov1 : List (Str × List (List Int))) (r : Nat)
+    (h : ovStep cat ov r = .ok ov1) :
+    ov1 = ov ∨ ∃ sit, foldlE (mergeStep rangeMem) [] (levelSegs cat (mRl ++ toDec r)) = .ok sit ∧
+      ov1 = dset ov (mRl ++ toDec r) sit := by
+  unfold ovStep at h
+  simp only [] at h
+  split at h
+  · cases hf : foldlE (mergeStep rangeMem) [] (levelSegs cat (mRl ++ toDec r)) with
+    | error e => simp [hf] at h
+    | ok sit =>
+      simp only [hf, ebind_ok, epure_ok] at h
+      injection h with h
+      exact Or.inr ⟨sit, rfl, h.symm⟩
+  · simp only [epure_ok] at h
+    injection h with h
+    exact Or.inl h.symm
+
+theorem ov_fold (cat : Cat) : ∀ (rls : List Nat), rls.Nodup → ∀ (ov0 ov : List (Str × List (List Int))),
+    foldlE (ovStep cat) ov0 rls = .ok ov → ∀ rl : Nat,
+      (rl ∉ rls → dget ov (mRl ++ toDec rl) = dget ov0 (mRl ++ toDec rl)) ∧
+      (dget ov0 (mRl ++ toDec rl) = none → ∀ sit, dget ov (mRl ++ toDec rl) = some sit →
+        foldlE (mergeStep rangeMem) [] (levelSegs cat (mRl ++ toDec rl)) = .ok sit) := by
+  intro rls
+  induction rls with
+  | nil =>
+    intro _ ov0 ov h rl
+    simp only [foldlE] at h
+    injection h with h; subst h
+    exact ⟨fun _ => rfl, fun h0 sit hs => by rw [h0] at hs; simp at hs⟩
+  | cons r rs ih =>
+    intro hnd ov0 ov h rl
+    rw [List.nodup_cons] at hnd
+    simp only [foldlE] at h
+    cases h1 : ovStep cat ov0 r with
+    | error e => simp [h1] at h
+    | ok ov1 =>
+      simp only [h1] at h
+      have ih' := ih hnd.2 ov1 ov h
+      have hother : ∀ rl', rl' ≠ r → dget ov1 (mRl ++ toDec rl') = dget ov0 (mRl ++ toDec rl') := by
+        intro rl' hne
+        rcases ovStep_cases cat ov0 ov1 r h1 with e | ⟨sit, _, e⟩
+        · rw [e]
+        · rw [e, dget_dset_ne _ _ _ _ (fun hk => hne (rlkey_inj hk).symm)]
+      constructor
+      · intro hnot
+        simp only [List.mem_cons, not_or] at hnot
+        rw [(ih' rl).1 hnot.2, hother rl hnot.1]
+      · intro h0 sit hs
+        by_cases hr : rl = r
+        · subst hr
+          rw [(ih' rl).1 hnd.1] at hs
+          rcases ovStep_cases cat ov0 ov1 rl h1 with e | ⟨sit1, hf, e⟩
+          · rw [e, h0] at hs; simp at hs
+          · rw [e, dget_dset_self] at hs
+            injection hs with hs; subst hs; exact hf
+        · exact (ih' rl).2 (by rw [hother rl hr]; exact h0) sit hs
+
+theorem overall_eq_fold (cat : Cat) : overall cat = (do
+    let rlmax ← rlMax cat
+    foldlE (ovStep cat) [] (List.range (rlmax.toNat + 1))) := rfl
+
+/-- an entry of the returned `overall` dictionary is the merge of that level -/
+theorem overall_entry (cat : Cat) (ov : List (Str × List (List Int))) (h : overall cat = .ok ov)
+    (rl : Nat) (sit : List (List Int)) (hs : dget ov (mRl ++ toDec rl) = some sit) :
+    foldlE (mergeStep rangeMem) [] (levelSegs cat (mRl ++ toDec rl)) = .ok sit := by
+  rw [overall_eq_fold] at h
+  cases hm : rlMax cat with
+  | error e => simp [hm] at h
+  | ok rlmax =>
+    simp only [hm, ebind_ok] at h
+    exact ((ov_fold cat _ List.nodup_range [] ov h rl).2 rfl) sit hs
+
+/-- **T6**: the `overall` entry of a level describes exactly the union of the
+per-restart segments of that level -/
+theorem overall_faithful_lemma (cat : Cat) (ov : List (Str × List (List Int))) (h : overall cat = .ok ov)
+    (rl : Nat) (sit : List (List Int)) (hs : dget ov (mRl ++ toDec rl) = some sit)
+    (hw : ∀ s ∈ levelSegs cat (mRl ++ toDec rl), WFseg s) (hch : Chain [] (levelSegs cat (mRl ++ toDec rl))) :
+    ∀ x, inSit x sit ↔ ∃ s ∈ levelSegs cat (mRl ++ toDec rl), inSegP x s := by
+  have hf := overall_entry cat ov h rl sit hs
+  obtain ⟨r, hr, _, he⟩ := merge_faithful _ [] (by simp) hw hch
+  rw [hf] at hr
+  injection hr with hr; subst hr
+  intro x
+  rw [he x]
+  simp [inSit]
+
 end AurelVerif.CatalogLemmas
